@@ -598,10 +598,13 @@ class Interp:
         is_gen = any(isinstance(n, (ast.Yield, ast.YieldFrom)) for n in _walk_no_nested(st))
         f = IFunc(st, env, mod, qual, defaults, kwd, is_gen)
         for dec in st.decorator_list:
+            txt = ast.unparse(dec)
             if isinstance(dec, ast.Name) and dec.id == "staticmethod":
                 f.is_static = True
+            elif txt.split("(")[0] in ("functools.lru_cache", "lru_cache", "functools.cache", "cache"):
+                f.memo = []                 # functools.lru_cache / cache: a hit returns the SAME object as the first call (unbounded here)
             else:
-                raise SymError("function decorator outside the subset")
+                f.bad_decorator = txt       # rejected when the function is CALLED, so that the rest of the module stays decidable
         if cls is None:
             env.vars[st.name] = f
         return f
@@ -1560,6 +1563,13 @@ class Interp:
                 self.world.used_stubs.add(f.name)
                 return stub(self, list(args), kwargs)
             try:
+                import inspect as _inspect
+                try:
+                    _inspect.signature(f.fn).bind(self, *args, **kwargs)
+                except TypeError as ex:
+                    raise SymError(f"library model of {f.name} does not take these arguments ({ex})")
+                except ValueError:
+                    pass
                 return f.fn(self, *args, **kwargs)
             except sym.DivByZero:
                 raise IRaise(FloatingPointError("invalid value encountered in " + f.name))
@@ -1632,6 +1642,25 @@ class Interp:
         if stub is not None:
             self.world.used_stubs.add(key)
             return stub(self, args, kwargs)
+        if getattr(f, "bad_decorator", None):
+            raise SymError(f"function decorator outside the subset: @{f.bad_decorator} on {key}")
+        if getattr(f, "memo", None) is not None and not getattr(f, "_memo_running", False):
+            def same(x, y):
+                if isinstance(x, (tuple, list)) and isinstance(y, (tuple, list)):
+                    return type(x) is type(y) and len(x) == len(y) and all(same(p, q) for p, q in zip(x, y))
+                if isinstance(x, (IObj, IDict, ISet)) or isinstance(y, (IObj, IDict, ISet)):
+                    return x is y
+                return self.truth(self.eq(x, y))
+            for a0, k0, r0 in f.memo:
+                if len(a0) == len(args) and sorted(k0) == sorted(kwargs) and same(list(a0), list(args)) and all(same(k0[n], kwargs[n]) for n in k0):
+                    return r0
+            f._memo_running = True
+            try:
+                r = self.call_function(f, args, kwargs)
+            finally:
+                f._memo_running = False
+            f.memo.append((list(args), dict(kwargs), r))
+            return r
         self.world.inlined.add(key)
         self.depth += 1
         if self.depth > 200:
